@@ -17,7 +17,7 @@ EXTENDS Cfg, TLC
 CONSTANT Layouts        \* set of <<n1, n2>>: blocks of function 1 and 2 (n2 = -1: only one function)
 LayoutsNone == {<<0, -1>>}
 LayoutsQuick == {<<0, -1>>, <<1, -1>>, <<2, -1>>, <<1, 0>>, <<1, 1>>}
-LayoutsThorough == LayoutsQuick \cup {<<2, 0>>, <<2, 1>>, <<1, 2>>, <<3, -1>>}
+LayoutsThorough == LayoutsQuick \cup {<<2, 0>>, <<2, 1>>, <<1, 2>>, <<3, -1>>, <<2, 2>>}
 
 J(tid, k, t, ret) == [tid |-> tid, k |-> k, t |-> t, ret |-> ret]
 B(tid, jmps, ind) == [tid |-> tid, defs |-> <<>>, jmps |-> jmps, ind |-> ind]
